@@ -23,21 +23,21 @@ void h_rstr_simple(void)
 	re[n] = 0;
 	rs->str = 0;
 	int ret = rstr_simple(rs, re);
-	__CPROVER_assert(ret == 0 || ret == 1, "rstr_simple: returns 0 or 1");
+	H_ASSERT(ret == 0 || ret == 1, "rstr_simple: returns 0 or 1");
 	if (ret == 0) {
 		int b = (rs->lbeg ? 1 : 0) + (rs->wbeg ? 2 : 0);
 		int e = n - (rs->lend ? 1 : 0) - (rs->wend ? 2 : 0);
-		__CPROVER_assert(!!rs->lbeg == (re[0] == '^'), "rstr_simple: line-start flag iff the pattern starts with ^");
-		__CPROVER_assert(!rs->wbeg || (re[b - 2] == '\\' && re[b - 1] == '<'), "rstr_simple: word-start flag only for \\< after the optional ^");
-		__CPROVER_assert(!rs->lend || re[n - 1] == '$', "rstr_simple: line-end flag only for a final $");
-		__CPROVER_assert(!rs->wend || (re[e] == '\\' && re[e + 1] == '>'), "rstr_simple: word-end flag only for \\> before the optional $");
-		__CPROVER_assert(b <= e, "rstr_simple: prefix and suffix do not overlap");
+		H_ASSERT(!!rs->lbeg == (re[0] == '^'), "rstr_simple: line-start flag iff the pattern starts with ^");
+		H_ASSERT(!rs->wbeg || (re[b - 2] == '\\' && re[b - 1] == '<'), "rstr_simple: word-start flag only for \\< after the optional ^");
+		H_ASSERT(!rs->lend || re[n - 1] == '$', "rstr_simple: line-end flag only for a final $");
+		H_ASSERT(!rs->wend || (re[e] == '\\' && re[e + 1] == '>'), "rstr_simple: word-end flag only for \\> before the optional $");
+		H_ASSERT(b <= e, "rstr_simple: prefix and suffix do not overlap");
 		for (i = 0; i < 8; i++)
 			if (b <= i && i < e) {
-				__CPROVER_assert(!IS_OP(re[i]), "rstr_simple: a pattern containing a regular-expression operator in its literal part is never treated as a literal");
-				__CPROVER_assert(rs->str[i - b] == re[i], "rstr_simple: the literal copied out is the middle part of the pattern, byte for byte");
+				H_ASSERT(!IS_OP(re[i]), "rstr_simple: a pattern containing a regular-expression operator in its literal part is never treated as a literal");
+				H_ASSERT(rs->str[i - b] == re[i], "rstr_simple: the literal copied out is the middle part of the pattern, byte for byte");
 			}
-		__CPROVER_assert(rs->str != 0 && rs->str[e - b] == 0, "rstr_simple: the literal is NUL-terminated at its length");
+		H_ASSERT(rs->str != 0 && rs->str[e - b] == 0, "rstr_simple: the literal is NUL-terminated at its length");
 	}
 #ifdef CANARY
 	__CPROVER_assert(0, "canary");
@@ -178,7 +178,7 @@ void h_match_case(void)
 	for (i = 0; i < 4; i++)
 		if (i < lr && i < ls && (icase ? verif_tolower((unsigned char) s[i]) != verif_tolower((unsigned char) r[i]) : s[i] != r[i]))
 			eq = 0;
-	__CPROVER_assert((ret == 0) == eq, "match_case: 0 iff the literal fits and every byte equals the line byte (ASCII case folded when icase)");
+	H_ASSERT((ret == 0) == eq, "match_case: 0 iff the literal fits and every byte equals the line byte (ASCII case folded when icase)");
 #ifdef CANARY
 	__CPROVER_assert(0, "canary");
 #endif
